@@ -21,6 +21,7 @@ type Harness struct {
 	Tier        string
 	Stubs       map[string]string
 	NativeStubs map[string]string
+	ValueStubs  map[string]string // method VALUE expressions x.M rewritten natively to binder(x)
 	Havoc       map[string]bool
 	InitPkgs    map[string]bool
 	Params      map[string][2]int
@@ -71,7 +72,7 @@ func (h *Harness) Bounds(tier string) string {
 }
 
 func newHarness() *Harness {
-	return &Harness{Stubs: map[string]string{}, NativeStubs: map[string]string{}, Havoc: map[string]bool{}, InitPkgs: map[string]bool{},
+	return &Harness{Stubs: map[string]string{}, NativeStubs: map[string]string{}, ValueStubs: map[string]string{}, Havoc: map[string]bool{}, InitPkgs: map[string]bool{},
 		Params: map[string][2]int{}, Flags: map[string]bool{}}
 }
 
@@ -99,6 +100,12 @@ func (h *Harness) apply(line string) error {
 		if f[0] == "stub" {
 			h.NativeStubs[k] = v
 		}
+	case "stubvalue":
+		parts := strings.SplitN(rest, "=", 2)
+		if len(parts) != 2 {
+			return fmt.Errorf("bad stubvalue directive %q", line)
+		}
+		h.ValueStubs[strings.TrimSpace(parts[0])] = strings.TrimSpace(parts[1])
 	case "havoc":
 		for _, x := range f[1:] {
 			h.Havoc[x] = true
